@@ -268,6 +268,33 @@ def statics_monitor(chk, quick):
                       "%s: the event stream (fixed tapes) in a process that first ran the other configurations of the pool (orders %s) differs from the stream of the same "
                       "configuration alone in a process of its own: the library keeps something for the life of the process that another configuration filled" % (cfgname, wss),
                       {"config": cfgname, "orders": wss, "replay": "%s cfghash <spec> %d %d <cfg index> 1 0   versus   ... 0 %d %d" % (exe, chk.seed, n_iid, ncfg, wss[0])})
+    # ---- first event of a process versus the same event later: every item of every configuration in a fresh (forked) process of its own
+    #      against the same item inside a process that walks the configuration's items in order
+    nblk = NCPU * 2
+    per_blk = max(1, (ncfg + nblk - 1) // nblk)
+
+    def fresh(first):
+        return (first,) + run([exe, "itemfresh", f.name, str(chk.seed), str(n_iid), str(first), str(per_blk)], timeout=7200, env=build.lib_env("plain"))
+
+    fresh_compared = 0
+    fresh_failed = 0
+    for first, rc, out, err in pmap(fresh, list(range(0, ncfg, per_blk)), jobs=NCPU):
+        recs = [json.loads(l) for l in out.splitlines() if l.startswith("{")]
+        if rc != 0 or not recs:
+            chk.inconclusive_("c07_statics itemfresh (configurations from %d) exited %s: %s" % (first, rc, err[-300:]))
+            continue
+        fresh_compared += recs[0]["compared"]
+        fresh_failed += recs[0]["failed_children"]
+        for dct in recs[0]["differing"]:
+            chk.violation("first-event-vs-later|" + dct["config"],
+                          "%s: %d of %d fixed-tape events differ between 'the first thing the process does' and 'after the earlier items of the same configuration': the "
+                          "library carries something from one decay of a nuclide to the next" % (dct["config"], dct["differing"], dct["items"]),
+                          {"config": dct["config"], "first_witness_position": dct["first_witness_position"],
+                           "replay": "%s itemfresh <spec> %d %d %d 1" % (exe, chk.seed, n_iid, dct["cfg"])})
+    if fresh_failed:
+        chk.note("itemfresh: %d child processes gave no result" % fresh_failed)
+    chk.require(fresh_compared >= 1000, "first-event-versus-later compared only %d events" % fresh_compared)
+    info["first_event_vs_later"] = {"events_compared": fresh_compared, "children_without_result": fresh_failed}
     info["alone_vs_company"] = {"configurations": ncfg, "alone_processes": len(alone_h), "company_processes": len(warm_seeds), "streams_compared": compared,
                                 "configurations_differing": len(differing)}
     chk.require(compared >= ncfg, "alone-versus-company compared only %d streams" % compared)
